@@ -7,20 +7,30 @@ LEAN_MODULES = ['BemppVerif.Props.C07', 'BemppVerif.Gen.AsmMatch']
 LEAN_MODULES += shared.CTOR_MODULES
 N = "BemppVerif.C07."
 THEOREMS = []
-PARTIAL = {N + "regular_eq_tested_potential": "proved for kernels that do not depend on the test normal (single and double layer "
-           "of all scalar families); the Maxwell magnetic-field trace statement and the electric-field statement (up to "
-           "quadrature error) are oracle-only"}
+PARTIAL = {N + "regular_eq_tested_potential": "scalar: proved for kernels that do not depend on the test normal (single and double "
+           "layer of all scalar families).  Maxwell (generated, traces of the real assemblers on two disjoint grids vs traces of the "
+           "real potential assemblers): magnetic field: boundary entry = MINUS the Galerkin-tested potential (exact; the sign is that "
+           "of psi_t.(grad G x psi_s) = -grad G.(psi_t x psi_s)); electric field: boundary entry = minus the tested potential minus "
+           "an explicit remainder, (1/ik) x the QUADRATURE of the surface divergence div_x(psi_t G) against div psi_s (the boundary "
+           "form is integrated by parts; the remainder's exact integral is an edge flux and it is not zero for a quadrature rule): "
+           "that this remainder is small is oracle-only"}
 TRUSTED = [
-    "Tie B: assembler tracing (vlib/asmtrace.py, props/asm_gen.py) and kernel tracing (props/kernels_gen.py): the generated "
-    "theorems are about terms recorded while running the undecorated source of the real functions",
+    "Tie B: assembler tracing (vlib/asmtrace.py, props/asm_gen.py, props/asm_gen_mx.py) and kernel tracing (props/kernels_gen.py): "
+    "the generated theorems are about terms recorded while running the undecorated source of the real functions",
     "hand model Model/Asm.lean tied to the source by the generated AsmMatch theorems (symbolic, one generic configuration)",
     "classical analysis that is used but not formalised is named in PARTIAL",
     shared.CTOR_TRUSTED,
 ]
 ASSUMPTIONS = []
-RULE = 'correspondence: compiled assemblers vs their traces at random numeric configurations (Tie B validation); oracle: props/c07_oracle.py'
-LEVEL_TEXT = 'Lean 4 theorems: for all sizes the regular local integral with no skipped pairs equals the test function integrated against the potential of the trial shape function (model), and 24 generated theorems state the same identity between the TRACE of the real boundary assembler on two different grids and the TRACE of the real potential assembler, for every kernel independent of the test normal.'
-LEVEL_NOTE = 'partial: Maxwell statements oracle-only. Trusted: Lean kernel, tracers, hand model tied by generated match theorems.'
+RULE = 'correspondence: compiled assemblers (scalar and Maxwell, two grids; potentials) vs their traces at random numeric configurations (Tie B validation); oracle: props/c07_oracle.py'
+LEVEL_TEXT = ('Lean 4 theorems: for all sizes the regular local integral with no skipped pairs equals the test function integrated against '
+              'the potential of the trial shape function (model), and 24 generated theorems state the same identity between the TRACE of '
+              'the real boundary assembler on two different grids and the TRACE of the real potential assembler, for every kernel '
+              'independent of the test normal.  Maxwell: 25 generated theorems: traced maxwell_mfield_regular_assembler entry = '
+              '-(sum_p w_p ie_tau psi_test(p) . traced maxwell_mfield_potential at x_p); 25 generated theorems: traced '
+              'maxwell_efield_regular_assembler entry = -(tested traced maxwell_efield_potential) - remainder (quadrature of a surface '
+              'divergence, written out).')
+LEVEL_NOTE = 'partial: smallness of the E-field integration-by-parts remainder is oracle-only. Trusted: Lean kernel, tracers, hand model tied by generated match theorems.'
 TECHNIQUE = 'Lean 4 proof (model identity + ring identities between traces of the two real assemblers) + numerical oracle'
 
 
@@ -28,7 +38,8 @@ def generate(ctx):
     info = dict(kernels=shared.gen_kernels()[0], asm=shared.gen_asm()[0])
     THEOREMS[:] = ([N + t for t in ("regular_eq_tested_potential", "disjoint_grids_regular_only", "element_major_index_injective")]
                    + [shared.SPEC + "localReg_eq_tested_potential"]
-                   + shared.asm_theorems("two_grid_operator", "potential_matches", "regular_matches"))
+                   + shared.asm_theorems("two_grid_operator", "potential_matches", "regular_matches")
+                   + shared.mx_theorems("C07"))
     info.update(shared.gen_ctors()[0])
     THEOREMS.extend(shared.ctor_theorems('laplace_boundary', 'helmholtz_boundary', 'modified_boundary', 'maxwell_boundary', 'laplace_potential', 'helmholtz_potential', 'modified_potential', 'maxwell_potential')
                     + [t for t in shared.CTOR_SPEC if t.split('.')[-1] in ('singular_part_and_dtype', 'maxwell_kernel_and_dimension')])
